@@ -468,9 +468,16 @@ func implIf(v ssa.Value, val bool, depth int) *ssa.If {
 func explore(start ssa.Instruction, inclusive bool, stop func(ssa.Instruction) bool) map[ssa.Instruction]bool {
 	reached := map[ssa.Instruction]bool{}
 	if !inlineAware || curProgram == nil {
-		visited := map[*ssa.BasicBlock]bool{}
-		var walk func(b *ssa.BasicBlock, from int)
-		walk = func(b *ssa.BasicBlock, from int) {
+		// visited is keyed by (block, predecessor) only where the predecessor decides a flag test
+		// (`released := false … released = true … if !released {…}`): a φ of boolean constants
+		// tested in its own block is resolved per incoming edge.
+		type visitKey struct {
+			b    *ssa.BasicBlock
+			pred *ssa.BasicBlock
+		}
+		visited := map[visitKey]bool{}
+		var walk func(b *ssa.BasicBlock, from int, pred *ssa.BasicBlock)
+		walk = func(b *ssa.BasicBlock, from int, pred *ssa.BasicBlock) {
 			for k := from; k < len(b.Instrs); k++ {
 				i := b.Instrs[k]
 				if stop != nil && stop(i) {
@@ -478,10 +485,24 @@ func explore(start ssa.Instruction, inclusive bool, stop func(ssa.Instruction) b
 				}
 				reached[i] = true
 			}
-			for _, s := range b.Succs {
-				if !visited[s] {
-					visited[s] = true
-					walk(s, 0)
+			succs := b.Succs
+			if pred != nil {
+				if val, known := flagTestOnEdge(b, pred); known {
+					if val {
+						succs = b.Succs[:1]
+					} else {
+						succs = b.Succs[1:]
+					}
+				}
+			}
+			for _, s := range succs {
+				key := visitKey{s, nil}
+				if _, flagged := flagTestOnEdge(s, b); flagged {
+					key.pred = b
+				}
+				if !visited[key] {
+					visited[key] = true
+					walk(s, 0, b)
 				}
 			}
 		}
@@ -489,7 +510,7 @@ func explore(start ssa.Instruction, inclusive bool, stop func(ssa.Instruction) b
 		if !inclusive {
 			k++
 		}
-		walk(start.Block(), k)
+		walk(start.Block(), k, nil)
 		return reached
 	}
 	// Inline-aware: a call of a single-site helper continues inside the helper, and each of the
@@ -614,6 +635,40 @@ func explore(start ssa.Instruction, inclusive bool, stop func(ssa.Instruction) b
 	}
 	walk(start.Block(), k, nil, map[*ssa.BasicBlock]bool{})
 	return reached
+}
+
+// flagTestOnEdge: block b ends in an If on (the negation of) a φ of b whose incoming value from pred
+// is a boolean constant; returns the outcome of the test when b is entered from pred.
+func flagTestOnEdge(b, pred *ssa.BasicBlock) (bool, bool) {
+	if len(b.Instrs) == 0 || len(b.Succs) != 2 {
+		return false, false
+	}
+	ifi, ok := b.Instrs[len(b.Instrs)-1].(*ssa.If)
+	if !ok {
+		return false, false
+	}
+	cond := ifi.Cond
+	neg := false
+	for {
+		if u, isU := cond.(*ssa.UnOp); isU && u.Op == token.NOT {
+			cond = u.X
+			neg = !neg
+			continue
+		}
+		break
+	}
+	phi, ok := cond.(*ssa.Phi)
+	if !ok || phi.Block() != b {
+		return false, false
+	}
+	for k, p := range b.Preds {
+		if p == pred && k < len(phi.Edges) {
+			if v, isC := constBool(phi.Edges[k]); isC {
+				return v != neg, true
+			}
+		}
+	}
+	return false, false
 }
 
 // definitelyNonNil: a value that cannot be nil (a freshly built error or object).
@@ -1111,6 +1166,17 @@ func rootCell(v ssa.Value) ssa.Value {
 	for k := 0; k < 8; k++ {
 		if fa, isFA := v.(*ssa.FieldAddr); isFA {
 			return recvFieldCell(fa)
+		}
+		// a pointer parameter of a helper invoked from exactly one place (`defer finish(&res, &err)`)
+		// is the cell whose address is passed there
+		if p, isP := v.(*ssa.Parameter); isP {
+			if arg := uniqueSiteArg(p); arg != nil {
+				if _, isPtr := p.Type().Underlying().(*types.Pointer); isPtr {
+					v = arg
+					continue
+				}
+			}
+			return v
 		}
 		fv, ok := v.(*ssa.FreeVar)
 		if !ok {
